@@ -801,4 +801,76 @@ func (g *PacketGen) RunC13() {
 			}
 		}
 	}
+	g.runCleanForeignLane(c, r, a)
+}
+
+// runCleanForeignLane: chain R is the relay chain of lane S -> D (one packet delivered, its
+// acknowledgement not yet back on R) and the source of its own lane R -> D (one packet fully
+// acknowledged). MsgCleanPacket{1, source S, destination D} submitted on R can only ever be a clean
+// of R's own lane (the source field of a clean submitted on a chain is that chain): it must not
+// touch lane S -> D, whose acknowledgement must still be able to travel D -> R -> S.
+func (g *PacketGen) runCleanForeignLane(S, R, D *tibctesting.TestChain) {
+	w := g.w
+	pk := R.App.TIBCKeeper.PacketKeeper
+	data, tok := g.randData()
+	seq := S.App.TIBCKeeper.PacketKeeper.GetNextSequenceSend(S.GetContext(), S.ChainName, D.ChainName)
+	p := packettypes.NewPacket(data, seq, S.ChainName, D.ChainName, R.ChainName, "tibcmock")
+	if seq != 1 || w.KSend(S, p, tok) != nil {
+		return
+	}
+	t := &tpkt{p: p, tok: tok, sentOn: S.ChainName, recvOn: map[string]bool{}, ackedOn: map[string]bool{}}
+	g.pkts = append(g.pkts, t)
+	h := w.Update(R, S)
+	ps := ProofSpec{Kind: "honest", Chain: S.ChainName, Height: h, Key: "commit", Src: p.SourceChain, Dst: p.DestinationChain, Seq: p.Sequence}
+	if w.Recv(R, 1, p, tok, ps, h).Code != 0 {
+		return
+	}
+	t.recvOn[R.ChainName] = true
+	h = w.Update(D, R)
+	ps = ProofSpec{Kind: "honest", Chain: R.ChainName, Height: h, Key: "commit", Src: p.SourceChain, Dst: p.DestinationChain, Seq: p.Sequence}
+	res := w.Recv(D, 1, p, tok, ps, h)
+	if res.Code != 0 {
+		return
+	}
+	t.recvOn[D.ChainName] = true
+	t.ack, t.ackOn = writtenAck(res), D.ChainName
+	// R's own lane
+	data2, tok2 := g.randData()
+	seq2 := pk.GetNextSequenceSend(R.GetContext(), R.ChainName, D.ChainName)
+	q := packettypes.NewPacket(data2, seq2, R.ChainName, D.ChainName, "", "tibcmock")
+	if seq2 != 1 || w.KSend(R, q, tok2) != nil {
+		return
+	}
+	t2 := &tpkt{p: q, tok: tok2, sentOn: R.ChainName, recvOn: map[string]bool{}, ackedOn: map[string]bool{}}
+	g.pkts = append(g.pkts, t2)
+	h = w.Update(D, R)
+	ps = ProofSpec{Kind: "honest", Chain: R.ChainName, Height: h, Key: "commit", Src: q.SourceChain, Dst: q.DestinationChain, Seq: q.Sequence}
+	res = w.Recv(D, 1, q, tok2, ps, h)
+	if res.Code != 0 || writtenAck(res) == nil {
+		return
+	}
+	t2.recvOn[D.ChainName] = true
+	t2.ack, t2.ackOn = writtenAck(res), D.ChainName
+	h = w.Update(R, D)
+	aps := ProofSpec{Kind: "honest", Chain: D.ChainName, Height: h, Key: "ack", Src: q.SourceChain, Dst: q.DestinationChain, Seq: q.Sequence}
+	if w.Ack(R, 1, q, tok2, t2.ack, aps, h).Code != 0 {
+		return
+	}
+	t2.ackedOn[R.ChainName] = true
+	// the clean message names the foreign lane
+	foreignBefore := w.cleanPoint(R, S.ChainName, D.ChainName)
+	hadReceipt := pk.HasPacketReceipt(R.GetContext(), S.ChainName, D.ChainName, 1)
+	cres := w.Clean(R, 1, packettypes.NewCleanPacket(1, S.ChainName, D.ChainName, ""))
+	g.stat("c13.clean-naming-a-foreign-lane." + ErrClass(cres.Codespace, cres.Code))
+	if w.cleanPoint(R, S.ChainName, D.ChainName) != foreignBefore || (hadReceipt && !pk.HasPacketReceipt(R.GetContext(), S.ChainName, D.ChainName, 1)) {
+		w.hit("C10", fmt.Sprintf("clean-submitted-on-%s-changed-lane-%s/%s-it-is-only-the-relay-of", R.ChainName, S.ChainName, D.ChainName))
+	}
+	// the pending acknowledgement of lane S -> D must still pass R
+	h = w.Update(R, D)
+	aps = ProofSpec{Kind: "honest", Chain: D.ChainName, Height: h, Key: "ack", Src: p.SourceChain, Dst: p.DestinationChain, Seq: p.Sequence}
+	if ar := w.Ack(R, 1, p, tok, t.ack, aps, h); ar.Code == 0 {
+		t.ackedOn[R.ChainName] = true
+	} else {
+		w.hit("C10", "acknowledgement-refused-for-good-on-the-relay-chain-after-a-clean-naming-its-lane "+pkeyStr(p))
+	}
 }
